@@ -30,6 +30,14 @@ type tplItem struct {
 	holePop, holePush int
 	single  bool // hole of exactly one unknown instruction
 	tag     string
+	visible []tplVis // hole: the named variables a sub-compilation can resolve at this point
+}
+
+// tplVis is one entry of the modelled scope.variables list.
+type tplVis struct {
+	name  string
+	id    string
+	depth int
 }
 
 type tvKind int
@@ -103,7 +111,7 @@ func newTplEnv(parent *tplEnv) *tplEnv { return &tplEnv{vars: map[types.Object]*
 
 type tplUnsupported struct{ msg string }
 
-type tplReturn struct{}
+type tplReturn struct{ vals []tVal }
 
 type tplBreak struct{ label string }
 type tplContinue struct{}
@@ -112,6 +120,8 @@ type tplFallthrough struct{}
 type tplFrame struct {
 	fn     *ast.FuncDecl
 	defers []func()
+	scopeSaved bool
+	visLen, sdepth int
 }
 
 type tplRun struct {
@@ -132,6 +142,10 @@ type tplRun struct {
 	inline map[string]bool
 	trace  []string
 	strFacts map[string]string
+	vis    []tplVis        // model of scope.variables of the innermost scope
+	sdepth int             // model of scope.depth
+	owned  map[string]bool // variables created by this run (newVariable/pushVariable/createVariable)
+	lastRet []tVal
 }
 
 func (r *tplRun) shapeOptions(key string) int {
@@ -265,6 +279,22 @@ func (r *tplRun) eval(e ast.Expr, env *tplEnv) tVal {
 			key := "len(" + r.describe(x.Args[0], env) + ")"
 			return tVal{k: tvInt, i: r.decideShape(key, r.shapeOptions(key))}
 		}
+		if id, ok := x.Fun.(*ast.Ident); ok && id.Name == "append" && len(x.Args) >= 1 && !x.Ellipsis.IsValid() && r.info.Uses[id] == types.Universe.Lookup("append") {
+			base := r.eval(x.Args[0], env)
+			if base.k == tvNil {
+				base = tVal{k: tvList, elems: []tVal{}}
+			}
+			if base.k == tvList {
+				nv := tVal{k: tvList, i: base.i + len(x.Args) - 1}
+				if base.elems != nil || base.i == 0 {
+					nv.elems = append([]tVal{}, base.elems...)
+					for _, a := range x.Args[1:] {
+						nv.elems = append(nv.elems, r.eval(a, env))
+					}
+				}
+				return nv
+			}
+		}
 		if id, ok := x.Fun.(*ast.Ident); ok && id.Name == "make" && len(x.Args) >= 2 {
 			if _, isSlice := r.info.TypeOf(x.Args[0]).Underlying().(*types.Slice); isSlice {
 				if n, ok := r.evalInt(x.Args[1], env); ok {
@@ -274,15 +304,49 @@ func (r *tplRun) eval(e ast.Expr, env *tplEnv) tVal {
 		}
 		switch calleeName(r.info, x) {
 		case "gojq.compiler.newVariable", "gojq.compiler.pushVariable", "gojq.compiler.createVariable":
+			name, known := "", true
+			if len(x.Args) == 1 {
+				if nv := r.eval(x.Args[0], env); nv.k == tvStr {
+					name = nv.s
+				} else {
+					known = false
+					name = "?" + r.src(x.Args[0])
+				}
+			}
+			if strings.HasSuffix(calleeName(r.info, x), "pushVariable") && known {
+				for _, w := range r.vis {
+					if w.name == name && w.depth == r.sdepth {
+						return tVal{k: tvVar, s: w.id}
+					}
+				}
+			}
 			r.varSeq++
-			return tVal{k: tvVar, s: fmt.Sprintf("v%d", r.varSeq)}
+			id := fmt.Sprintf("v%d", r.varSeq)
+			if name != "" {
+				id += "(" + name + ")"
+			}
+			if r.owned == nil {
+				r.owned = map[string]bool{}
+			}
+			r.owned[id] = true
+			r.vis = append(r.vis, tplVis{name, id, r.sdepth})
+			return tVal{k: tvVar, s: id}
 		case "gojq.compiler.lookupVariable":
 			r.varSeq++
 			return tVal{k: tvVar, s: fmt.Sprintf("v%d", r.varSeq)}
 		case "gojq.compiler.lazy":
 			return r.doLazy(x, env)
+		case "gojq.compiler.newScope":
+			// a function scope: the variables created from here on belong to it and go out of reach when the calling
+			// lowering function returns (its deferred restore of c.scopes)
+			if fr := r.frame(); !fr.scopeSaved {
+				fr.scopeSaved, fr.visLen, fr.sdepth = true, len(r.vis), r.sdepth
+				r.sdepth += 1000
+			}
+			return tVal{k: tvUnknown, desc: "scope"}
 		case "gojq.compiler.newScopeDepth":
-			return tVal{k: tvCloser, slot: -1}
+			r.sdepth++
+			return tVal{k: tvCloser, slot: -1, i: len(r.vis), desc: "scopedepth"}
 		}
 		return tVal{k: tvUnknown, desc: r.src(x)}
 	case *ast.BinaryExpr:
@@ -1015,8 +1079,14 @@ func (r *tplRun) hole(name string, pop, push int, pos token.Pos, canBeEmpty bool
 	if !canBeEmpty {
 		cls++
 	}
+	var visible []tplVis
+	for _, w := range r.vis {
+		if w.name != "" {
+			visible = append(visible, w)
+		}
+	}
 	mk := func(single bool) tplItem {
-		return tplItem{isHole: true, single: single, holePop: pop, holePush: push, ins: bcIns{Op: "hole", Target: -1, Var: -1, Pos: pos, Hole: name}}
+		return tplItem{isHole: true, single: single, holePop: pop, holePush: push, visible: visible, ins: bcIns{Op: "hole", Target: -1, Var: -1, Pos: pos, Hole: name}}
 	}
 	switch cls {
 	case 0: // empty (identity)
@@ -1047,6 +1117,12 @@ func (r *tplRun) callValue(fn tVal) {
 	switch fn.k {
 	case tvCloser:
 		if fn.lit == nil {
+			if fn.desc == "scopedepth" {
+				r.sdepth--
+				if fn.i <= len(r.vis) {
+					r.vis = r.vis[:fn.i]
+				}
+			}
 			return
 		}
 		r.runCloser(fn)
@@ -1104,6 +1180,11 @@ func (r *tplRun) compilerCall(call *ast.CallExpr, env *tplEnv) bool {
 		return true // emit a self-contained builtin behind a jump: verified as literal lists
 	}
 	if !strings.HasPrefix(short, "compile") {
+		// a helper method that emits instructions is executed like the lowering function itself
+		if tplEmits(r.c, short, map[string]bool{}) && r.depth < 6 {
+			r.inlineCall(short, call, env)
+			return true
+		}
 		return false
 	}
 	if r.inline[short] && r.depth < 4 {
@@ -1120,7 +1201,40 @@ func (r *tplRun) compilerCall(call *ast.CallExpr, env *tplEnv) bool {
 	return true
 }
 
-func (r *tplRun) inlineCall(short string, call *ast.CallExpr, env *tplEnv) {
+// tplEmits: does the compiler method `short` append instructions, directly or through other compiler methods?
+func tplEmits(c *Ctx, short string, seen map[string]bool) bool {
+	if seen[short] {
+		return false
+	}
+	seen[short] = true
+	fd := c.Decl(c.Gojq, "compiler."+short)
+	if fd == nil || fd.Body == nil {
+		return false
+	}
+	found := false
+	ast.Inspect(fd.Body, func(n ast.Node) bool {
+		call, ok := n.(*ast.CallExpr)
+		if !ok || found {
+			return !found
+		}
+		name := calleeName(c.Gojq.TypesInfo, call)
+		if !strings.HasPrefix(name, "gojq.compiler.") {
+			return true
+		}
+		switch s := strings.TrimPrefix(name, "gojq.compiler."); s {
+		case "append", "appends", "lazy":
+			found = true
+		default:
+			if tplEmits(c, s, seen) {
+				found = true
+			}
+		}
+		return true
+	})
+	return found
+}
+
+func (r *tplRun) inlineCall(short string, call *ast.CallExpr, env *tplEnv) []tVal {
 	fd := r.c.Decl(r.c.Gojq, "compiler."+short)
 	if fd == nil {
 		r.unsupported("callee %s not found", short)
@@ -1140,17 +1254,20 @@ func (r *tplRun) inlineCall(short string, call *ast.CallExpr, env *tplEnv) {
 		}
 	}
 	r.depth++
-	r.runFunc(fd, callee)
+	vals := r.runFunc(fd, callee)
 	r.depth--
+	r.lastRet = vals
+	return vals
 }
 
-func (r *tplRun) runFunc(fd *ast.FuncDecl, env *tplEnv) {
+func (r *tplRun) runFunc(fd *ast.FuncDecl, env *tplEnv) (vals []tVal) {
 	fr := &tplFrame{fn: fd}
 	r.frames = append(r.frames, fr)
 	func() {
 		defer func() {
 			if e := recover(); e != nil {
-				if _, ok := e.(tplReturn); ok {
+				if ret, ok := e.(tplReturn); ok {
+					vals = ret.vals
 					return
 				}
 				panic(e)
@@ -1161,7 +1278,14 @@ func (r *tplRun) runFunc(fd *ast.FuncDecl, env *tplEnv) {
 	for i := len(fr.defers) - 1; i >= 0; i-- {
 		fr.defers[i]()
 	}
+	if fr.scopeSaved {
+		if fr.visLen <= len(r.vis) {
+			r.vis = r.vis[:fr.visLen]
+		}
+		r.sdepth = fr.sdepth
+	}
 	r.frames = r.frames[:len(r.frames)-1]
+	return vals
 }
 
 func (r *tplRun) assign(lhs ast.Expr, v tVal, env *tplEnv, define bool) {
@@ -1283,6 +1407,10 @@ func (r *tplRun) exec(s ast.Stmt, env *tplEnv) {
 							v = tVal{k: tvBool, b: false}
 						case t != nil && strings.HasPrefix(t.String(), "[]"):
 							v = tVal{k: tvList, i: 0}
+						case t != nil && t.String() == "string":
+							v = tVal{k: tvStr, s: ""}
+						case t != nil && t.String() == "error":
+							v = tVal{k: tvNil}
 						default:
 							v = tVal{k: tvUnknown, desc: nm.Name}
 						}
@@ -1296,7 +1424,7 @@ func (r *tplRun) exec(s ast.Stmt, env *tplEnv) {
 		if x.Init != nil {
 			// `if err := c.compileX(…); err != nil { return err }`  → the call, error path ignored
 			if as, ok := x.Init.(*ast.AssignStmt); ok && len(as.Rhs) == 1 {
-				if call, ok := as.Rhs[0].(*ast.CallExpr); ok && r.isErrPlumbing(x) {
+				if call, ok := as.Rhs[0].(*ast.CallExpr); ok && r.isErrPlumbing(x) && len(as.Lhs) == 1 {
 					if r.compilerCall(call, ienv) {
 						return
 					}
@@ -1333,12 +1461,22 @@ func (r *tplRun) exec(s ast.Stmt, env *tplEnv) {
 			}
 		}
 		// return c.compileX(…)  → the call, then return
+		var vals []tVal
 		for _, res := range x.Results {
 			if call, ok := unparen(res).(*ast.CallExpr); ok {
-				r.compilerCall(call, env)
+				r.lastRet = nil
+				if r.compilerCall(call, env) {
+					if len(x.Results) == 1 && r.lastRet != nil {
+						vals = r.lastRet
+					} else {
+						vals = append(vals, tVal{k: tvNil})
+					}
+					continue
+				}
 			}
+			vals = append(vals, r.eval(res, env))
 		}
-		panic(tplReturn{})
+		panic(tplReturn{vals})
 	case *ast.BlockStmt:
 		r.execBlock(x.List, newTplEnv(env))
 	case *ast.ForStmt:
@@ -1449,6 +1587,20 @@ func (r *tplRun) execAssign(x *ast.AssignStmt, env *tplEnv) {
 	if len(x.Rhs) == 1 {
 		if call, ok := unparen(x.Rhs[0]).(*ast.CallExpr); ok {
 			name := calleeName(r.info, call)
+			if short := strings.TrimPrefix(name, "gojq.compiler."); strings.HasPrefix(name, "gojq.compiler.compile") && r.inline[short] && r.depth < 4 && len(x.Lhs) > 1 {
+				vals := r.inlineCall(short, call, env)
+				for i, l := range x.Lhs {
+					v := tVal{k: tvNil}
+					if i < len(vals) {
+						v = vals[i]
+					}
+					if t := r.info.TypeOf(l); t != nil && t.String() == "error" {
+						v = tVal{k: tvNil}
+					}
+					r.assign(l, v, env, define)
+				}
+				return
+			}
 			if strings.HasPrefix(name, "gojq.compiler.compile") {
 				r.compilerCall(call, env)
 				if name == "gojq.compiler.compilePattern" && len(x.Lhs) >= 1 {
@@ -1692,6 +1844,7 @@ type tplVariant struct {
 	Items       []tplItem
 	Choices     []string
 	Unsupported string
+	Owned       map[string]bool
 }
 
 // tplExplore enumerates the variants of one root function by replaying decision vectors depth-first.
@@ -1718,6 +1871,7 @@ func tplExplore(c *Ctx, fd *ast.FuncDecl, bind func(r *tplRun, env *tplEnv), inl
 			r.runFunc(fd, env)
 		}()
 		v.Items = r.items
+		v.Owned = r.owned
 		for i, k := range r.keys {
 			v.Choices = append(v.Choices, fmt.Sprintf("%s=%d", k, r.memoVal(i)))
 		}
